@@ -43,6 +43,8 @@ enum Passcode {
     Right,
     Wrong(u32),
     OneBitOff(u8),
+    /// the passcode of the enhanced (verifier) windows of this case (`C02Case::passcode2`)
+    Second,
 }
 
 #[derive(Debug, Clone, Serialize, Deserialize)]
@@ -63,6 +65,9 @@ struct Init {
 enum WinOp {
     Close,
     CloseReopen,
+    /// close, then open an *enhanced* window whose verifier belongs to another passcode
+    /// (`C02Case::passcode2`)
+    CloseReopenOther,
 }
 
 #[derive(Debug, Clone, Serialize, Deserialize)]
@@ -85,6 +90,9 @@ struct C02Case {
     plan: Plan,
     sched: Option<u64>,
     seed: u32,
+    /// passcode of the enhanced windows opened by `WinOp::CloseReopenOther`
+    #[serde(default)]
+    passcode2: u32,
 }
 
 fn passcode_strategy() -> impl Strategy<Value = u32> {
@@ -97,6 +105,7 @@ fn case_strategy() -> impl Strategy<Value = C02Case> {
             5 => Just(Passcode::Right),
             2 => (1u32..99_999_998).prop_map(Passcode::Wrong),
             1 => (0u8..27).prop_map(Passcode::OneBitOff),
+            1 => Just(Passcode::Second),
         ],
         prop_oneof![
             5 => (0u32..4000).prop_map(Start::AfterOpen),
@@ -107,7 +116,7 @@ fn case_strategy() -> impl Strategy<Value = C02Case> {
     let event = (
         prop::sample::select(vec![OP_PBKDF_REQ, OP_PBKDF_RESP, OP_PAKE1, OP_PAKE2, OP_PAKE3]),
         0u8..3,
-        prop_oneof![Just(WinOp::Close), Just(WinOp::CloseReopen)],
+        prop_oneof![Just(WinOp::Close), Just(WinOp::CloseReopen), Just(WinOp::CloseReopenOther)],
     )
         .prop_map(|(opcode, nth, op)| WindowEvent { opcode, nth, op });
     let mutation = (
@@ -137,9 +146,11 @@ fn case_strategy() -> impl Strategy<Value = C02Case> {
         prop_oneof![2 => Just(Plan::default()), 3 => adv::plan(10)],
         prop_oneof![1 => Just(None), 3 => any::<u64>().prop_map(Some)],
         any::<u32>(),
+        1u32..99_999_998,
     )
         .prop_map(
-            |(passcode, timeout_s, inits, events, mutation, warmup, plan, sched, seed)| C02Case {
+            |(passcode, timeout_s, inits, events, mutation, warmup, plan, sched, seed, passcode2)| C02Case {
+                passcode2: if passcode2 == passcode { passcode2 + 1 } else { passcode2 },
                 passcode,
                 timeout_s,
                 inits,
@@ -162,8 +173,37 @@ fn dev_comm(passcode: u32) -> BasicCommData {
     }
 }
 
+/// SPAKE2+ verifier (w0 || L) of a passcode, computed with the stack's own crypto primitives
+/// (PBKDF2, reduction mod the group order, w1 * G) the way the specification defines it.
+fn verifier_for<C: rs_matter::crypto::Crypto>(crypto: &C, passcode: u32, salt: &[u8], iter: u32) -> Option<[u8; 97]> {
+    use rs_matter::crypto::{CryptoSensitive, EcPoint, EcScalar, PbKdf};
+    let pw = CryptoSensitive::<4>::new_from_ref(rs_matter::crypto::CryptoSensitiveRef::new(&passcode.to_le_bytes()));
+    let mut w = CryptoSensitive::<80>::new();
+    crypto.pbkdf().ok()?.derive(pw.reference(), iter as usize, salt, &mut w).ok()?;
+    let (w0s, w1s) = w.reference().split::<40, 40>();
+    let w0 = crypto.ec_scalar_mod_p(w0s).ok()?;
+    let w1 = crypto.ec_scalar_mod_p(w1s).ok()?;
+    let l = crypto.ec_generator_point().ok()?.mul(&w1).ok()?;
+    let mut w0c = CryptoSensitive::<32>::new();
+    w0.write_canon(&mut w0c).ok()?;
+    let mut lc = CryptoSensitive::<65>::new();
+    l.write_canon(&mut lc).ok()?;
+    let mut out = [0u8; 97];
+    out[..32].copy_from_slice(w0c.access());
+    out[32..].copy_from_slice(lc.access());
+    Some(out)
+}
+
+fn resolve_passcode_in(p: &Passcode, case: &C02Case) -> u32 {
+    match p {
+        Passcode::Second => case.passcode2,
+        other => resolve_passcode(other, case.passcode),
+    }
+}
+
 fn resolve_passcode(p: &Passcode, right: u32) -> u32 {
     match p {
+        Passcode::Second => right, // resolved by `resolve_passcode_in`
         Passcode::Right => right,
         Passcode::Wrong(w) => {
             if *w == right {
@@ -193,6 +233,8 @@ struct Shared {
 
 #[derive(Debug, Clone)]
 struct WindowSpan {
+    /// the passcode a peer has to know for this window
+    passcode: u32,
     open_at: u64,
     /// time it was closed by an operation (None = never closed by the harness)
     closed_at: Option<u64>,
@@ -332,6 +374,35 @@ fn check(case: &C02Case) -> Case {
             .map_err(|e| format!("open_basic_comm_window: {:?}", e.code()))?;
         let now = clock::now();
         spans.push(WindowSpan {
+            passcode: case.passcode,
+            open_at: now,
+            closed_at: None,
+            expiry: now + case.timeout_s as u64 * SEC,
+        });
+        Ok(())
+    };
+    let open_other_window = |device: &Matter, spans: &mut Vec<WindowSpan>| -> Result<(), String> {
+        let salt = [0x5au8; 32];
+        let iter = 1000u32;
+        let v = verifier_for(&cd, case.passcode2, &salt, iter).ok_or("verifier computation failed")?;
+        device
+            .with_state(|st| {
+                st.verif_pase_mut().open_comm_window(
+                    0x1122_3344_5566_7788,
+                    rs_matter::crypto::CryptoSensitiveRef::new(&v),
+                    &salt,
+                    iter,
+                    3841,
+                    case.timeout_s,
+                    None,
+                    || {},
+                    |_, _| {},
+                )
+            })
+            .map_err(|e| format!("open_comm_window: {:?}", e.code()))?;
+        let now = clock::now();
+        spans.push(WindowSpan {
+            passcode: case.passcode2,
             open_at: now,
             closed_at: None,
             expiry: now + case.timeout_s as u64 * SEC,
@@ -464,6 +535,11 @@ fn check(case: &C02Case) -> Case {
                         failures.push(e);
                     }
                 }
+                if matches!(op, WinOp::CloseReopenOther) {
+                    if let Err(e) = open_other_window(&device, &mut spans) {
+                        failures.push(e);
+                    }
+                }
             }
             let now = clock::now();
             while started < starts.len() && starts[started].0 <= now {
@@ -471,7 +547,7 @@ fn check(case: &C02Case) -> Case {
                 started += 1;
                 let m = &inits[i];
                 let c = &cryptos[i];
-                let pc = resolve_passcode(&case.inits[i].passcode, case.passcode);
+                let pc = resolve_passcode_in(&case.inits[i].passcode, case);
                 let res = &results[i];
                 ex.spawn(&format!("init{i}.pase"), async move {
                     let r = async {
@@ -553,7 +629,9 @@ fn check(case: &C02Case) -> Case {
 
     for i in 0..n_init {
         let node = 1 + i;
-        let right = matches!(case.inits[i].passcode, Passcode::Right);
+        let pc_i = resolve_passcode_in(&case.inits[i].passcode, case);
+        // "right" = the passcode of some window of this case (which one was open is checked below)
+        let right = spans.iter().any(|s| s.passcode == pc_i);
         // effective value-level mutation on any message between device and this initiator
         let mut value_mut = false;
         let mut structural_mut = false;
@@ -594,7 +672,7 @@ fn check(case: &C02Case) -> Case {
             if !right {
                 return Case::fail(
                     "O1:session-with-wrong-passcode",
-                    format!("initiator {i} used passcode {} (device {}), yet the device holds PASE session {:?}", resolve_passcode(&case.inits[i].passcode, case.passcode), case.passcode, snap.local_sess_id),
+                    format!("initiator {i} used passcode {pc_i} (windows: {spans:?}), yet the device holds PASE session {:?}", snap.local_sess_id),
                 );
             }
             if value_mut && case.mutation.as_ref().map(|m| m.opcode != OP_STATUS).unwrap_or(false) {
@@ -619,7 +697,26 @@ fn check(case: &C02Case) -> Case {
                             ),
                         )
                     }
-                    Some(true) => {}
+                    Some(true) => {
+                        // the proof must be about the passcode of the window that is open when
+                        // the session comes into existence, not of an earlier window
+                        let open_now: Vec<&WindowSpan> = spans
+                            .iter()
+                            .filter(|s| s.open_at <= t3 && t3 <= s.closed_at.unwrap_or(u64::MAX).min(s.expiry))
+                            .collect();
+                        if !open_now.is_empty() && open_now.iter().all(|s| s.passcode != pc_i) {
+                            return Case::fail(
+                                "O1:session-for-passcode-of-an-earlier-window",
+                                format!(
+                                    "initiator {i} knows passcode {pc_i}; when the device consumed its Pake3 at {t3} the open window required passcode {} (windows: {spans:?}), yet a PASE session exists",
+                                    open_now[0].passcode
+                                ),
+                            );
+                        }
+                        if spans.iter().any(|s| s.passcode != case.passcode) {
+                            labels.push("session-with-two-passcode-windows".into());
+                        }
+                    }
                     None => labels.push("pake3-near-window-edge".into()),
                 },
             }
